@@ -257,6 +257,10 @@ fn worker(a: &Args) {
     // process dies, the parent can name the case.
     let progress = progress_path(None, &prop, wi).and_then(|p| std::fs::OpenOptions::new().create(true).write(true).truncate(true).open(p).ok());
     'outer: for fam in &fams {
+        // (diagnostics only: restrict a batch to one scenario family)
+        if a.get("family").map_or(false, |n| n != fam.name) {
+            continue;
+        }
         let total = ((if thorough { fam.thorough_runs } else { fam.quick_runs }) as f64 * scale) as u64;
         let mut i = wi;
         while i < total {
@@ -402,7 +406,7 @@ fn check(a: &Args) -> i32 {
     for i in 0..n {
         let mut cmd = std::process::Command::new(&exe);
         cmd.arg("worker").arg("--prop").arg(&prop).arg("--tier").arg(&tier).arg("--seed").arg(seed.to_string()).arg("--worker").arg(i.to_string()).arg("--of").arg(n.to_string());
-        for k in ["scale", "time-cap", "minimise-secs"] {
+        for k in ["scale", "time-cap", "minimise-secs", "family"] {
             if let Some(v) = a.get(k) {
                 cmd.arg(format!("--{}", k)).arg(v);
             }
